@@ -638,6 +638,14 @@ def iter_find(eng, st, fr, args, fn, site):
     return out
 
 
+def ref_bool_not(eng, st, fr, args, fn, site):
+    """<&bool as Not>::not(r): the negation of what r points to (a closure pattern that binds a `&bool`)"""
+    x = deref(eng, st, ptr_term(args[0]))
+    if is_int_const(x):
+        return C(1 - x[1], 'bool')
+    return T('Not', x)
+
+
 def nonnull_as_ref(eng, st, fr, args, fn, site):
     """NonNull::as_ref(&self) / as_mut: a reference to what the pointer points to"""
     p = deref(eng, st, ptr_term(args[0]))
@@ -1140,6 +1148,7 @@ SUMMARIES = {
     'std::result::Result::<T, E>::map_or': map_or_else(RES, with_default_fn=False),
     'std::option::Option::<T>::zip': opt_zip,
     'std::array::<impl [T; N]>::map': array_map,
+    '<&bool as std::ops::Not>::not': ref_bool_not,
     'std::array::iter::<impl std::iter::IntoIterator for [T; N]>::into_iter': array_into_iter,
     'std::slice::<impl [T]>::iter': slice_iter,
     "<std::slice::iter::Iter<'a, T> as std::iter::Iterator>::next": array_iter_next,
